@@ -1758,6 +1758,64 @@ let ghost g_mid = *args;
 proof { assert(exists|a: &mut State| *a == g_pre && *final(a) == g_mid && #[trigger] self.inner.ensures((self.failfast, a), res)); }
 //@@ end
 
+
+// ---- adjacency windows (C19)
+//@@ type src/args.rs | mod inner | struct ArgRangesIter
+//@@ unit args.ArgRangesIter tags=
+//@@ end
+
+impl State {
+    /// assumed contract (iterator-adapter code; checked within a bound by Kani unit K01.set_scope)
+    #[verifier::external_body]
+    pub fn set_scope(&mut self, scope: Range<usize>)
+        requires scope.start <= scope.end <= old(self).item_state.len(), old(self).item_state.len() == old(self).items.len(), old(self).items.len() < usize::MAX,
+        ensures
+            final(self).scope == scope,
+            final(self).remaining == count_present(old(self).item_state@, scope.start as int, scope.end as int),
+            final(self).items == old(self).items && final(self).item_state == old(self).item_state && final(self).current == old(self).current
+                && final(self).path == old(self).path && final(self).comp_eq(*old(self)),
+    { unimplemented!() }
+}
+
+//@@ fn src/args.rs | mod inner | impl State | fn ranges
+//@@ unit args.State.ranges tags=C19
+//@@ ret r
+//@@ spec
+        requires self.wf(),
+        ensures
+            r.args == self && r.cur == self.scope.start, // #search_starts_at_the_scope_start
+            r.width == (if item is Argument { 2usize } else { 1usize }), // #argument_blocks_are_two_items_wide
+//@@ end
+
+//@@ fn src/args.rs | mod inner | impl Iterator for ArgRangesIter | fn next
+//@@ unit args.ArgRangesIter.next tags=C19,C04 inherent loops=1
+//@@ ret r
+//@@ spec
+        requires
+            old(self).args.wf(),
+            old(self).args.scope.start <= old(self).cur,
+            1 <= old(self).width <= 2,
+        ensures
+            final(self).args == old(self).args && final(self).width == old(self).width, // #frame
+            final(self).args.scope.start <= final(self).cur,
+            r matches Some(t) ==> {
+                &&& old(self).cur <= t.0 && old(self).args.avail(t.0 as int) // #candidate_start_is_an_available_item_of_the_scope
+                &&& forall|j: int| old(self).cur <= j < t.0 ==> !old(self).args.avail(j) // #candidates_in_command_line_order
+                &&& t.0 + t.1 <= old(self).args.items.len() && t.1 == old(self).width // #block_fits_on_the_line
+                &&& t.2.wf() && t.2.scope.start == t.0 && t.2.scope.end == old(self).args.items.len() // #sub_state_starts_at_the_candidate
+                &&& t.2.items == old(self).args.items && t.2.item_state == old(self).args.item_state
+                &&& final(self).cur == t.0 + 1
+            },
+//@@ loop 1
+            invariant
+                self.args == old(self).args, self.width == old(self).width, 1 <= self.width <= 2,
+                self.args.wf(),
+                old(self).cur <= self.cur,
+                self.args.scope.start <= self.cur,
+                forall|j: int| old(self).cur <= j < self.cur ==> !self.args.avail(j),
+            decreases self.args.scope.end as int + 1 - self.cur as int,
+//@@ end
+
 // ---------------------------------------------------------------- feature = "autocomplete" only
 //@@ fn src/args.rs | mod inner | impl State | fn comp_mut
 //@@ unit args.State.comp_mut tags=C20
